@@ -864,7 +864,7 @@ class UserActions(object):
       table = self._engine.tables[table_id]
       self._engine._update_table_model(table, table.user_table)
 
-    for table in rename_summary_tables:
+    for table in sorted(rename_summary_tables):
       groupby_col_ids = [c.colId for c in table.columns if c.summarySourceCol]
       new_table_id = summary.encode_summary_table_name(table.summarySourceTable.tableId,
                                                        groupby_col_ids)
